@@ -198,8 +198,12 @@ pub fn gen_ws_conn(r: &mut Rng, nonce: &mut u64, port: u16, allow_faults: bool, 
     // undrained body bytes into the upgraded stream.)
     let with_body = valid && r.chance(1, 6);
     if with_body {
-        // (the handshake then reaches the server in one piece)
+        // (the handshake then reaches the server in one piece, and the 101
+        // meets no back-pressure: with an unread request body hyper marks
+        // the connection to be closed, and its shutdown without flush -
+        // the known finding of C10/C11/C16/C18 - can then cut the 101 short)
         c.c2s = crate::net::WirePolicy::whole();
+        c.s2c = crate::net::WirePolicy::whole();
     }
     let head = if with_body {
         let n = r.usize_in(1, 40);
